@@ -64,7 +64,7 @@ _RE_STATES = re.compile(r"^(\d+) states generated, (\d+) distinct states found, 
 _RE_DEPTH = re.compile(r"The depth of the complete state graph search is (\d+)")
 _RE_INIT = re.compile(r"Finished computing initial states: (\d+) distinct state")
 _RE_INIT2 = re.compile(r"Finished computing initial states: (\d+) states generated, with (\d+) of them distinct")
-_RE_ACTION = re.compile(r"^<(\w+) line \d+, col \d+ to line \d+, col \d+ of module (\w+)>: (\d+):(\d+)")
+_RE_ACTION = re.compile(r"^<(\w+) line \d+, col \d+ to line \d+, col \d+ of module (\w+)(?: \([\d ]+\))?>: (\d+):(\d+)")
 _RE_VIOL_INV = re.compile(r"Error: Invariant (\S+) is violated")
 _RE_VIOL_PROP = re.compile(r"Error: (?:Action|Temporal) propert(?:y|ies) (\S*)")
 
@@ -157,7 +157,8 @@ def run_tlc(module: str, cfg: str, *, tag: str, workers: int = 1, coverage: bool
             continue
         m = _RE_ACTION.match(line)
         if m:
-            res.actions[m.group(1)] = [int(m.group(3)), int(m.group(4))]
+            prev = res.actions.get(m.group(1), [0, 0])
+            res.actions[m.group(1)] = [prev[0] + int(m.group(3)), prev[1] + int(m.group(4))]
             continue
         m = _RE_VIOL_INV.search(line)
         if m:
